@@ -105,6 +105,8 @@ EXTRA = {
                          '<xs:element name="r"><xs:complexType><xs:sequence><xs:element name="i" type="B" block="extension" maxOccurs="unbounded"/></xs:sequence></xs:complexType></xs:element></xs:schema>',
                          ['<r xmlns:xsi="http://www.w3.org/2001/XMLSchema-instance"><i xsi:type="E1"><a>x</a></i></r>', '<r xmlns:xsi="http://www.w3.org/2001/XMLSchema-instance"><i><a>x</a></i><i xsi:type="E1"><a>x</a></i><i xsi:type="E1"><a>y</a></i></r>',
                           '<r><i><a>x</a></i></r>']),
+    'date-list-fixed': ('<xs:schema {XS}><xs:simpleType name="DL"><xs:list itemType="xs:date"/></xs:simpleType><xs:element name="e" type="DL" fixed="2000-01-01Z 2000-01-02Z"/></xs:schema>',
+                        ['<e>2000-01-01Z 2000-01-02Z</e>', '<e>2000-01-01Z   2000-01-02Z</e>', '<e>2000-01-01Z</e>', '<e/>']),
     'simple-fixed': ('<xs:schema {XS}><xs:element name="f" type="xs:decimal" fixed="1.0"/></xs:schema>', ['<f>1</f>', '<f/>', '<f> 1.00 </f>', '<f>2</f>', '<f> </f>']),
 }
 XS = 'xmlns:xs="http://www.w3.org/2001/XMLSchema"'
@@ -160,7 +162,7 @@ def run(tier, seed, open_findings):
         K = 'C04-list-of-dates-or-decimals-enumeration-decode'
         for r in eres:
             if not r: continue
-            if r['name'] in ('date-list-enum', 'decimal-list-enum') and r['problem'].startswith('entry points') and K in open_findings and r['verdicts'].get('is_valid') is True: ek[K] = ek.get(K, 0) + 1; continue
+            if r['name'] in ('date-list-enum', 'decimal-list-enum', 'date-list-fixed') and r['problem'].startswith('entry points') and K in open_findings and r['verdicts'].get('is_valid') is True: ek[K] = ek.get(K, 0) + 1; continue
             ef.append(dict(case=dict(extra=r['name'], ver=r['ver'], doc=r['doc']), observed=dict(verdicts=r['verdicts'], problem=r['problem']), required='one verdict on every entry point'))
         out.append(result('C04.verdict_agreement_small_schemas', f'{len(ejobs)} (schema, document, class) over {len(EXTRA)} small schemas (mixed content with a fixed value, enumerations on lists of dates / decimals, an IDREF default, a blocked xsi:type, a fixed decimal) x 6 entry points',
                           len(ejobs) * 6, ef, exhaustive=True, known=ek, samples=[dict(extra='mixed-fixed', doc='<m> </m>')]))
